@@ -60,7 +60,7 @@ func c06RetryReload(c *vlib.Ctx) {
 		if resp := l2.Do(a.Admin, req); resp.Status != 200 {
 			return fmt.Sprintf("publish %d", resp.Status)
 		}
-		for w := 0; w < 1600; w++ {
+		for w := 0; w < 4000; w++ {
 			lk, _ := a.Store.LookupMessages(queue.MessageLookupRequest{IDs: []string{id}})
 			if len(lk.Items) == 1 && lk.Items[0].State == queue.StateDead {
 				reason := ""
@@ -82,7 +82,7 @@ func c06RetryReload(c *vlib.Ctx) {
 		mu.Lock()
 		n := hits[id]
 		mu.Unlock()
-		return fmt.Sprintf("unsettled within 8s after %d request(s)", n)
+		return fmt.Sprintf("unsettled within 20s after %d request(s)", n)
 	}
 	for _, e := range edits {
 		oldText, newText := mk(e.fromD, e.fromB), mk(e.toD, e.toB)
